@@ -58,5 +58,22 @@ PositionCases ==
     \cup {SentCase(1, [McReqMin EXCEPT !.pubKeyCredParams = [i \in 1..12 |-> IF i = k THEN ParamOf(ALG_EdDSA) ELSE IF i = j THEN ParamOf(ALG_ES256) ELSE ParamOf(-256 - i)],
                                        !.options = <<AuthOptsFull>>], "list-position", F) : k \in {1, 2, 6, 11, 12}, j \in {1, 3, 12}}
 
-MC_Cases == TopSubsets \cup NestedSubsets \cup FullRequests \cup SubCommands \cup ParamOrders \cup ValueLattice \cup PairLattice \cup PositionCases
+\* the limits are per member: nothing bounds their SUM.  Requests whose members are each legal
+\* and whose total length crosses the largest CTAPHID message (7609 bytes) -- one long borrowed
+\* member, or many medium ones
+MsgTargets == {7608, 7609, 7610, 7611, 8192, 16384}
+LongHash(n) == [ReqRich(1, F) EXCEPT !.clientDataHash = Pattern(7, n)]
+LargeMessages ==
+    (LET l0 == Len(HostEncode(1, LongHash(7000), F)) IN
+     {SentCase(1, LongHash(7000 + t - l0), "large-message", F) : t \in MsgTargets})
+    \cup {SentCase(2, [GaReqMin EXCEPT !.allowList = <<[i \in 1..10 |-> [id |-> Pattern(i, k), type |-> N_publicKey]]>>,
+                                       !.options = <<AuthOptsFull>>], "large-message-many", F) : k \in {700} \cup (736..746)}
+    \cup {SentCase(1, [ReqRich(1, F) EXCEPT !.excludeList = <<[i \in 1..16 |-> [id |-> Pattern(i, k), type |-> N_publicKey]]>>],
+                    "large-message-many", F) : k \in {255, 400, 440, 450, 460, 470, 600}}
+
+\* every TRIPLE of members at the upper ends of their types
+TripleLattice ==
+    UNION {{SentCase(c, sv, "triple-lattice", F) : sv \in ThreeAtATime(CommandTable[c].schema, F, TRUE)} : c \in {1, 2, 6, 10, 12}}
+
+MC_Cases == TripleLattice \cup LargeMessages \cup TopSubsets \cup NestedSubsets \cup FullRequests \cup SubCommands \cup ParamOrders \cup ValueLattice \cup PairLattice \cup PositionCases
 =============================================================================
